@@ -266,6 +266,17 @@ def convert_variable_case(seed):
     m.add_equation(sympy.Eq(sympy.Derivative(x, t), m.create_quantity(1.0, us.get_unit('dimensionless') / us.get_unit('second'))))
     m.add_equation(sympy.Eq(i, m.create_quantity(3.0, alt) * x))
     direction = rng.choice([M.DataDirectionFlow.OUTPUT, M.DataDirectionFlow.INPUT])
+    # rules are one-way: a variable of the TARGET dimension cannot be converted back to the source dimension, in either role
+    back = m.add_variable('back', dalt, initial_value=2.0)
+    for dirn in (M.DataDirectionFlow.OUTPUT, M.DataDirectionFlow.INPUT):
+        try:
+            got = m.convert_variable(back, alt, dirn)
+            bad.append(('convert_variable(%s) against the direction of the only registered rule (%s -> %s) succeeded and returned %s'
+                        % (dirn, dalt, alt, got.name), {'seed': seed}))
+        except Exception as e:
+            if vlib.err_class(e) != 'pint:DimensionalityError':
+                bad.append(('convert_variable against the direction of the only registered rule raised %r, not a dimensionality '
+                            'error' % (e,), {'seed': seed}))
     want_cf = us.convert(us.Quantity(1.0, alt), dalt).magnitude
     if rng.random() < 0.5:
         # a STATE variable (it has an initial value) converted across the one-way rule, in either direction
